@@ -37,3 +37,30 @@ long omp_args_good(const int32_t* src, omp_col_t* cols, int ncols, long n) {
     }
     return total;
 }
+
+/* ---- R37 the thread count selects a schedule, not the work (rules/threadcount.py; own member table) */
+typedef struct { int threads; int n; int* cells; } ctl_cfg_t;
+void ctl_touch(int* cell);
+static void ctl_warm(ctl_cfg_t* c, int threads) {
+    if (threads <= 1) return;                   /* bad: the warm-up below changes state and is skipped for 1 thread */
+    int i;
+    #pragma omp parallel for num_threads(threads)
+    for (i = 0; i < c->n; i++) ctl_touch(&c->cells[i]);
+}
+void threadcount_caller(ctl_cfg_t* c) {
+    int threads = c->threads;
+    if (threads <= 0) threads = omp_get_max_threads();
+    ctl_warm(c, threads);
+}
+void threadcount_good(ctl_cfg_t* c) {
+    int threads = c->threads;
+    if (threads <= 0) threads = omp_get_max_threads();
+    if (threads > 64) { threads = 64; }
+    int i;
+    if (threads > 1) {
+        #pragma omp parallel for num_threads(threads)
+        for (i = 0; i < c->n; i++) ctl_touch(&c->cells[i]);
+    } else {
+        for (i = 0; i < c->n; i++) ctl_touch(&c->cells[i]);
+    }
+}
